@@ -7,6 +7,8 @@ From Coq Require Import ZifyBool ZifyN ZifyNat PeanoNat.
 From MPD Require Import Bytes Tables ParserModel BuilderModel Grammar ConnModel ParserProofs ConnProofs GrammarProofs.
 Open Scope N_scope.
 
+Ltac len_tac := repeat first [rewrite app_length | progress cbn [length]]; lia.
+
 (* ---------- sequencing without skipn ---------- *)
 
 Definition shift {A} (n : nat) (r : res A) : res A :=
@@ -291,7 +293,7 @@ Proof.
     f_equal. rewrite app_length. cbn [length]. lia. }
   replace (v ++ LF :: rest) with ((v ++ [LF]) ++ rest) in * by (rewrite <- app_assoc; reflexivity).
   rewrite (bind_app _ _ _ _ _ P2). unfold p_ret. cbn [shift]. f_equal.
-  unfold enc_field. rewrite !app_length. cbn [length]. lia.
+  unfold enc_field. len_tac.
 Qed.
 
 Lemma wf_field_parts k v : wf_field (k, v) = true ->
@@ -324,4 +326,152 @@ Proof.
   rewrite (alt_error _ _ _ A1), (alt_error _ _ _ A2), (alt_error _ _ _ A3). subst i.
   rewrite (alt_error _ _ _ (not_binary_line k v rest K L H)).
   exact (key_value_line k v rest N K T).
+Qed.
+
+(* ---------- the binary part ---------- *)
+
+Lemma bind_nil {A B} (p : parser A) (f : A -> parser B) r v :
+  p r = ROk 0 v -> p_bind p f r = shift 0 (f v r).
+Proof. intros H. exact (bind_app p f [] r v H). Qed.
+
+Lemma take_exact d r : p_take (N.of_nat (length d)) (d ++ r) = ROk (length d) d.
+Proof.
+  unfold p_take. rewrite app_length.
+  assert (E : (N.of_nat (length d + length r) <? N.of_nat (length d)) = false) by lia.
+  rewrite E, Nat2N.id, firstn_app_exact. reflexivity.
+Qed.
+
+Definition bin_header (n : N) : bytes := b "binary: " ++ render_dec n ++ [LF].
+
+Lemma binary_prefix_exact n r :
+  n < 2 ^ 64 -> p_binary_prefix (bin_header n ++ r) = ROk (length (bin_header n)) n.
+Proof.
+  intros B. unfold p_binary_prefix, bin_header. rewrite <- !app_assoc.
+  rewrite (bind_app _ _ (b "binary: ") _ tt (tag_exact _ _)).
+  cbn [app]. rewrite (bind_app _ _ _ _ _ (rt_number 64 n LF r B ltac:(reflexivity))).
+  unfold p_newline. rewrite (bind_cons _ _ LF r tt (char_exact LF r)). unfold p_ret. cbn [shift].
+  f_equal. len_tac.
+Qed.
+
+Lemma enc_binary_shape d : enc_binary d = bin_header (N.of_nat (length d)) ++ d ++ [LF].
+Proof. unfold enc_binary, bin_header. rewrite <- !app_assoc. reflexivity. Qed.
+
+(* C03, component 2: the binary part.  The payload is cut by its announced length and never
+   scanned: no hypothesis on its bytes. *)
+Theorem rt_binary d rest :
+  wf_payload d = true ->
+  parse_component (enc_binary d ++ rest) = ROk (length (enc_binary d)) (CBinary (length d)).
+Proof.
+  intros W. unfold wf_payload in W. apply N.ltb_lt in W.
+  set (n := N.of_nat (length d)) in *.
+  assert (K : forallb parser_key_charset (b "binary") = true) by reflexivity.
+  assert (S : enc_binary d ++ rest = b "binary" ++ 58 :: SP :: render_dec n ++ LF :: d ++ LF :: rest).
+  { unfold enc_binary. fold n. rewrite <- !app_assoc. reflexivity. }
+  unfold parse_component.
+  assert (A1 : p_map (p_tag (b "OK" ++ [LF])) (fun _ => EndOfResponse) (enc_binary d ++ rest) = RError)
+    by (rewrite S; exact (not_ok_line _ _ K)).
+  assert (A2 : p_map (p_tag (b "list_OK" ++ [LF])) (fun _ => EndOfFrame) (enc_binary d ++ rest) = RError)
+    by (rewrite S; exact (not_list_ok_line _ _ K)).
+  assert (A3 : p_error (enc_binary d ++ rest) = RError) by (rewrite S; exact (not_ack_line _ _ K)).
+  rewrite (alt_error _ _ _ A1), (alt_error _ _ _ A2), (alt_error _ _ _ A3). clear A1 A2 A3 S.
+  rewrite enc_binary_shape. fold n. rewrite <- app_assoc.
+  unfold p_alt, p_binary.
+  rewrite (bind_app _ _ _ _ _ (binary_prefix_exact n ((d ++ [LF]) ++ rest) W)).
+  unfold p_cut. rewrite <- app_assoc. unfold n at 1.
+  rewrite (bind_app _ _ _ _ _ (take_exact d ([LF] ++ rest))).
+  unfold p_newline. cbn [app]. rewrite (bind_cons _ _ LF rest tt (char_exact LF rest)).
+  unfold p_ret. cbn [shift]. subst n. f_equal. len_tac.
+Qed.
+
+(* ---------- OK, list_OK ---------- *)
+
+(* C03, component 3: the end of a response *)
+Theorem rt_ok rest : parse_component (enc_ok ++ rest) = ROk (length enc_ok) EndOfResponse.
+Proof.
+  unfold parse_component, p_alt, p_map, p_map_res, enc_ok. rewrite tag_exact. reflexivity.
+Qed.
+
+(* C03, component 4: the end of a frame of a command list *)
+Theorem rt_list_ok rest : parse_component (enc_list_ok ++ rest) = ROk (length enc_list_ok) EndOfFrame.
+Proof.
+  unfold parse_component.
+  rewrite alt_error by reflexivity.
+  unfold p_alt, p_map, p_map_res, enc_list_ok. rewrite tag_exact. reflexivity.
+Qed.
+
+(* ---------- the ACK line ---------- *)
+
+Definition ci_bytes (c i : N) : bytes := [91] ++ render_dec c ++ [64] ++ render_dec i ++ [93].
+Definition cmd_text (c : option bytes) : bytes := match c with Some x => x | None => [] end.
+Definition cmd_bytes (c : option bytes) : bytes := [123] ++ cmd_text c ++ [125].
+
+Lemma code_and_index_exact c i r :
+  c < 2 ^ 64 -> i < 2 ^ 64 ->
+  p_code_and_index (ci_bytes c i ++ r) = ROk (length (ci_bytes c i)) (c, i).
+Proof.
+  intros C I. unfold ci_bytes. rewrite <- !app_assoc. cbn [app]. unfold p_code_and_index.
+  rewrite (bind_cons _ _ 91 _ tt (char_exact 91 _)).
+  rewrite (bind_app _ _ _ _ _ (rt_number 64 c 64 _ C ltac:(reflexivity))).
+  rewrite (bind_cons _ _ 64 _ tt (char_exact 64 _)).
+  rewrite (bind_app _ _ _ _ _ (rt_number 64 i 93 _ I ltac:(reflexivity))).
+  rewrite (bind_cons _ _ 93 _ tt (char_exact 93 _)).
+  unfold p_ret. cbn [shift]. f_equal. len_tac.
+Qed.
+
+Lemma current_command_exact c r :
+  wf_command c = true -> p_current_command (cmd_bytes c ++ r) = ROk (length (cmd_bytes c)) c.
+Proof.
+  intros W. unfold cmd_bytes. rewrite <- !app_assoc. cbn [app]. unfold p_current_command.
+  rewrite (bind_cons _ _ 123 _ tt (char_exact 123 _)).
+  destruct c as [c|]; cbn [cmd_text wf_command] in *.
+  - apply andb_true_iff in W as [N C].
+    assert (NE : c <> []) by (intros ->; discriminate N).
+    assert (P : p_opt (p_map_res (p_take_while1 parser_command_charset) utf8) (c ++ 125 :: r) = ROk (length c) (Some c)).
+    { unfold p_opt. erewrite map_res_app; [reflexivity | apply take_while1_exact; [exact NE | exact C | reflexivity] | apply cmd_utf8; exact C]. }
+    rewrite (bind_app _ _ _ _ _ P).
+    rewrite (bind_cons _ _ 125 _ tt (char_exact 125 _)).
+    unfold p_ret. cbn [shift]. f_equal. len_tac.
+  - cbn [app].
+    assert (P : p_opt (p_map_res (p_take_while1 parser_command_charset) utf8) (125 :: r) = ROk 0 None).
+    { unfold p_opt. rewrite map_res_error; [reflexivity | apply take_while1_empty; reflexivity]. }
+    rewrite (bind_nil _ _ _ _ P).
+    rewrite (bind_cons _ _ 125 _ tt (char_exact 125 _)).
+    unfold p_ret. cbn [shift]. reflexivity.
+Qed.
+
+Lemma enc_error_shape e :
+  enc_error e = b "ACK " ++ ci_bytes (e_code e) (e_index e) ++ [SP] ++ cmd_bytes (e_command e) ++ [SP] ++ e_message e ++ [LF].
+Proof. unfold enc_error, ci_bytes, cmd_bytes, cmd_text. rewrite <- !app_assoc. reflexivity. Qed.
+
+Lemma wf_err_parts e : wf_err e = true ->
+  e_code e < 2 ^ 64 /\ e_index e < 2 ^ 64 /\ wf_command (e_command e) = true /\
+  utf8_valid (e_message e) = true /\ no_lf (e_message e) = true.
+Proof.
+  unfold wf_err, wf_text. intros H.
+  apply andb_true_iff in H as [H H4]. apply andb_true_iff in H as [H H3]. apply andb_true_iff in H as [H1 H2].
+  apply andb_true_iff in H4 as [H4 H5]. apply N.ltb_lt in H1. apply N.ltb_lt in H2. auto.
+Qed.
+
+(* C03, component 5: the ACK line — code, command index, optional current command, message *)
+Theorem rt_error e rest :
+  wf_err e = true ->
+  parse_component (enc_error e ++ rest) =
+  ROk (length (enc_error e)) (CError (e_code e) (e_index e) (e_command e) (e_message e)).
+Proof.
+  intros W. destruct (wf_err_parts e W) as (C & I & CM & U & L).
+  rewrite enc_error_shape. rewrite <- !app_assoc.
+  unfold parse_component.
+  rewrite alt_error by reflexivity.
+  rewrite alt_error by reflexivity.
+  unfold p_alt, p_error.
+  rewrite (bind_app _ _ (b "ACK ") _ tt (tag_exact _ _)).
+  rewrite (bind_app _ _ _ _ _ (code_and_index_exact _ _ _ C I)).
+  cbn [app]. rewrite (bind_cons _ _ SP _ tt (char_exact SP _)).
+  rewrite (bind_app _ _ _ _ _ (current_command_exact _ _ CM)).
+  rewrite (bind_cons _ _ SP _ tt (char_exact SP _)).
+  assert (P : p_map_res (p_take_while (fun c => negb (c =? LF))) utf8 (e_message e ++ LF :: rest) = ROk (length (e_message e)) (e_message e)).
+  { eapply map_res_app; [apply take_while_exact; [exact L | reflexivity] | unfold utf8; rewrite U; reflexivity]. }
+  rewrite (bind_app _ _ _ _ _ P).
+  unfold p_newline. rewrite (bind_cons _ _ LF rest tt (char_exact LF rest)).
+  unfold p_ret. cbn [shift fst snd]. f_equal. len_tac.
 Qed.
